@@ -58,7 +58,9 @@
   `Cfg` selects the variant: `releaseAfterDrain` = the accept loop waits for all connection
   goroutines before releasing the pool (pending/C12-fix-pool-release.patch); `ci` = how `CloseIdles`
   treats an idle connection: `asFound` (load, then close), `atomic` (hypothetical: one step),
-  `kickOnly` (hypothetical repair: it only wakes the receiver, which drains and closes).
+  `kickOnly` (pending/C12-d16-closeidles-wake.patch: it only wakes the receiver with
+  `SetReadDeadline(now)`, which then drains and closes, and counts every connection still in the
+  table as not closed).
 -/
 import TarsModel.Generated.Consts
 
@@ -537,7 +539,9 @@ def asFound (pool : Option (Nat × Nat)) : Cfg := { pool := pool, releaseAfterDr
 def repaired (pool : Option (Nat × Nat)) : Cfg := { pool := pool, releaseAfterDrain := true, ci := .kickOnly }
 
 /-- What the extractor saw in the tree: does `Handle` wait (`Wait()` call) before `Release()`, and
-does `CloseIdles` still call `Close()` itself. The harness expects the real code to behave like this. -/
+does `CloseIdles` still call `conn.conn.Close()` itself (as found) or only wake the receive loop
+(`conn.conn.SetReadDeadline`, the repair: `kickOnly`). The harness expects the real code to behave
+like this. -/
 def treeCfg (pool : Option (Nat × Nat)) : Cfg :=
   { pool := pool,
     releaseAfterDrain := decide (Consts.srvHandleWaitsBeforeRelease ≥ 1),
